@@ -110,6 +110,42 @@ class VerifierModel:
         return acc, rej, unrec
 
 
+def pre_loop_atoms(vm):
+    """conditions established on the (single) non-rejecting path through the statements that precede
+    the per-instruction loop of the verifier: -> (set of atoms, problems)"""
+    from facts import walk, strip
+    F = vm.cx.F
+    fn = F.fns[vm.fn]
+    body = strip(fn["thir"]["body"])
+    if body.get("k") != "block":
+        return set(), ["verifier body is not a block"]
+    loop_node = vm.lm.block
+    ev = symex.Evaluator(F)
+    owner = ev.owner_of(vm.fn)
+    st = symex.St()
+    for q in fn["thir"]["params"]:
+        if q["pat"] and q["pat"].get("k") == "bind":
+            st = st.set((owner, q["pat"]["id"]), ("obj", "PROG", q["ty"]))
+    states = [st]
+    for stmt in body["stmts"]:
+        inner = stmt.get("e") if stmt["k"] == "expr" else stmt.get("init")
+        if inner is not None and any(x is loop_node for x in walk(inner)):
+            break
+        fake = {"k": "block", "stmts": [stmt], "tail": None, "ty": "()"}
+        nxt = []
+        for s0 in states:
+            for _v, s2 in ev.ev(fake, s0, vm.fn):
+                if s2.exit is None and s2.feasible:
+                    nxt.append(s2)
+        states = nxt
+    else:
+        return set(), ["the per-instruction loop is not a statement of the verifier's top-level block"]
+    if len(states) != 1:
+        return set(), ["%d continuing paths before the loop" % len(states)]
+    atoms = set(simplify_atoms(vm.canon(c) for c in states[0].conds))
+    return atoms, list(states[0].unrec)
+
+
 # ---------------------------------------------------------------- reference (the C06 statement)
 def target(field, w):
     return T.op("add", 64, T.op("add", 64, PC, T.K(64, 1)), T.sext(64, sym(field, w)))
